@@ -290,7 +290,7 @@ def sstr(o):
             return "<unprintable>"
 
 
-def fresh_twin(q):
+def fresh_twin(q, **extra):
     """A TimePoint built through the constructor from q's (whole-second) fields, or None if q has fractional fields.
     Differential oracle for derived values: the twin and q must answer every observer alike."""
     h, m, s = q._hour_of_day, q._minute_of_hour, q._second_of_minute
@@ -306,6 +306,7 @@ def fresh_twin(q):
         kw.update(day_of_year=q._day_of_year)
     else:
         kw.update(week_of_year=q._week_of_year, day_of_week=q._day_of_week)
+    kw.update(extra)
     return TimePoint(**kw)
 
 
